@@ -236,11 +236,11 @@ class Walker:
             return
         if isinstance(t, ast.Attribute):
             # store to an attribute of another object
-            if isinstance(t.value, ast.Name) and t.value.id != "self":
+            if not (isinstance(t.value, ast.Name) and t.value.id == "self"):
+                if not isinstance(t.value, ast.Name):
+                    self.expr(t.value)
                 if t.attr not in IGNORED_EXT:
                     self.rec("ext_" + t.attr, "rmw" if aug else "write")
-            else:
-                self.expr(t.value)
             return
         if isinstance(t, ast.Starred):
             self.target(t.value, value, aug, delete)
@@ -499,6 +499,14 @@ def render(info):
     for fn in fns:
         bl = info["blocks"].get(fn, [])
         body = ", ".join("(%s, [%s])" % (lks(l), ", ".join(f"(.{_ident(a)}, .{k})" for a, k in acc)) for l, acc in bl)
+        o.append(f"  | .{_ident(fn)} => [{body}]\n")
+    o.append("/-- shape of each function: its lock sections / unlocked accesses in source order, each with the SET of "
+             "shared attributes it touches (sorted, kinds and repetitions dropped) – stable under renaming of locals and "
+             "reordering of statements inside a section -/\n")
+    o.append("def shape : Fn → List (List Lk × List At)\n")
+    for fn in fns:
+        bl = info["blocks"].get(fn, [])
+        body = ", ".join("(%s, [%s])" % (lks(l), ", ".join(f".{_ident(a)}" for a in sorted({a for a, _ in acc}))) for l, acc in bl)
         o.append(f"  | .{_ident(fn)} => [{body}]\n")
     o.append("/-- resolved calls of each function in source order: (locks held at the call site, callee) -/\n")
     o.append("def calls : Fn → List (List Lk × Fn)\n")
